@@ -140,6 +140,13 @@ type loadResult struct {
 }
 
 func loadVia(data []byte, script []simio.ReadStep, name string, disasm bool) *loadResult {
+	return loadInto(data, script, name, disasm, false)
+}
+
+// loadInto loads through LoadProg, or (used) through the Load method of a Prog that held
+// another program before; the listing is then produced by a second, fresh load of the re-dump
+// being compared anyway, so it is left empty.
+func loadInto(data []byte, script []simio.ReadStep, name string, disasm, used bool) *loadResult {
 	lr := &loadResult{Out: &bytes.Buffer{}, Log: &bytes.Buffer{}}
 	rd := &simio.SimReader{Data: data, Script: script}
 	func() {
@@ -148,10 +155,18 @@ func loadVia(data []byte, script []simio.ReadStep, name string, disasm bool) *lo
 				lr.Panic = panicSig(x)
 			}
 		}()
+		if used {
+			lr.Prog, lr.Err = bcl.Parse([]byte("# another\n# program\ndef t \"x\" { f = 1 }\n\nprint \"earlier\"\nbind t -> struct\n"), "earlier.bcl", bcl.OptOutput(lr.Out), bcl.OptLogger(lr.Log))
+			if lr.Err == nil {
+				lr.Err = lr.Prog.Load(rd)
+			}
+			return
+		}
 		lr.Prog, lr.Err = bcl.LoadProg(rd, name, bcl.OptOutput(lr.Out), bcl.OptLogger(lr.Log), bcl.OptDisasm(disasm))
 	}()
 	lr.Listing = lr.Out.String()
 	lr.Reads = len(rd.Ends)
+	Beat()
 	return lr
 }
 
@@ -163,7 +178,11 @@ func c09Check(sc *Scenario, script []simio.ReadStep, dump []byte, listing string
 		c.SetStr("partition", "script")
 		return c
 	}
-	lr := loadVia(dump, script, "other-name", true)
+	used := (len(dump)+len(script))%5 == 0
+	lr := loadInto(dump, script, "other-name", true, used)
+	if used {
+		o.probe("loaded_into_used_prog", 1)
+	}
 	if lr.Panic != "" {
 		o.viol("C09", "panic", "load:"+normSig(lr.Panic), "LoadProg panicked on a complete dump: "+lr.Panic, concrete())
 		return lr.Reads
@@ -180,7 +199,7 @@ func c09Check(sc *Scenario, script []simio.ReadStep, dump []byte, listing string
 	if !bytes.Equal(d2, dump) {
 		o.viol("C09", "redump", "dump of the loaded program differs", firstDiff(d2, dump), concrete())
 	}
-	if lr.Listing != listing {
+	if !used && lr.Listing != listing {
 		o.viol("C09", "listing", "disassembly of the loaded program differs",
 			fmt.Sprintf("original:\n%s\nloaded:\n%s", short(listing, 400), short(lr.Listing, 400)), concrete())
 	}
